@@ -691,6 +691,13 @@ func (f For) byteCode(srcsel int, fl flags.Pass, cr compResult) bytecode.Type {
 	discard := fl.Data().Discard
 	returning := fl.Data().Returning
 
+	// a return inside nested for loops has to remove the contexts of every
+	// enclosing loop, keep the lower bound of the outermost one
+	ctxLo := ctxID
+	if fl.Data().InFor {
+		ctxLo = fl.Data().CtxLo
+	}
+
 	var assignAddr int
 
 	if !discard {
@@ -760,7 +767,7 @@ func (f For) byteCode(srcsel int, fl flags.Pass, cr compResult) bytecode.Type {
 	body := f.Body.byteCode(0, fl.Data().Pass(
 		flags.WithInFor(true),
 		flags.WithCtxID(ctxID+len(f.VarRefs.Elems)),
-		flags.WithCtxLo(ctxID),
+		flags.WithCtxLo(ctxLo),
 		flags.WithCtxHi(ctxID+len(f.VarRefs.Elems)-1),
 		flags.WithDiscard(discard)), cr)
 
